@@ -50,7 +50,7 @@ type checker struct {
 }
 
 func run(e *harness.Env) {
-	e.Rule = "documents: (A) every sequence of 1..3 body blocks over the full block alphabet of each format (DOCX 32 letters, ODT 29 letters; listed in docx_alphabet / odt_alphabet), all optional parts present " +
+	e.Rule = "documents: (A) every sequence of 1..3 body blocks over the full block alphabet of each format (DOCX 38 letters, ODT 35 letters; listed in docx_alphabet / odt_alphabet), all optional parts present " +
 		"(quick: length-3 sequences with at most one letter outside the structural sub-alphabet); " +
 		"(B, thorough) every sequence of 4 blocks over the structural sub-alphabet (letters whose effect crosses block boundaries: plain / empty paragraph, headings, list items, tables, block-level content control) " +
 		"and every sequence of 4 blocks with at most 2 letters other than the plain paragraph over the full alphabet; " +
